@@ -376,8 +376,42 @@ theorem C13_bad_memtype_state (memtype : String) (info full : Res (List Nat)) (m
     memoryPercentS cfg pcfg memtype info full meminfo s = (.error .valueError, s) :=
   pct_value_error cfg pcfg memtype info full meminfo s _ (pctValue_bad cfg cfg_good memtype info full h)
 
-/-- the literal reading of "percent of total physical memory": every answer is relative to the
-    total the kernel reports AT THE TIME OF THE CALL — false of the code as it is -/
+/-- **C13_percent_last_read.** The property's reading in the presence of the module cache, for
+    EVERY history of `/proc/meminfo` rewrites, `virtual_memory()` and `memory_percent(t)` calls:
+    `memory_percent(t)` = 100 · field / (the total physical memory psutil last read — by the
+    latest successful `virtual_memory()`, or by the first `memory_percent()` when none was made;
+    a total of 0 is re-read). -/
+theorem C13_percent_last_read (info full : Res (List Nat)) (ops : List POp) (mi : Bytes) (s : PState) :
+    runP cfg pcfg info full ops mi s = runLastRead cfg (vmTotal pcfg) info full ops mi s.cache :=
+  runP_lastRead cfg pcfg pcfg_good info full ops mi s
+
+/-- **C13_percent_constant_total.** The property's own setting — `MemTotal` is the same at every
+    read (the other lines of `/proc/meminfo` may change at will): every `memory_percent(t)` of the
+    history is 100 · field / (1024 · MemTotal) and every `virtual_memory().total` is 1024 · MemTotal
+    (`runFixed`); here the "last read" and the "current total" readings coincide. -/
+theorem C13_percent_constant_total (info full : Res (List Nat)) (ls0 : List KV)
+    (h0 : wfMeminfo ls0 = true) (ops : List POp)
+    (hops : ∀ b, POp.setMeminfo b ∈ ops →
+      ∃ ls, b = renderMeminfo ls ∧ wfMeminfo ls = true ∧ memTotal ls = memTotal ls0) :
+    runP cfg pcfg info full ops (renderMeminfo ls0) ⟨none⟩ = runFixed cfg info full (memTotal ls0) ops
+      ∧ runCurrent cfg pcfg info full ops (renderMeminfo ls0)
+          = runP cfg pcfg info full ops (renderMeminfo ls0) ⟨none⟩ := by
+  have hb : ∀ b, POp.setMeminfo b ∈ ops → vmTotal pcfg b = .ok (memTotal ls0) := by
+    intro b hbm
+    obtain ⟨ls, rfl, hw, ht⟩ := hops b hbm
+    rw [C13_meminfo_total ls hw, ht]
+  have h1 := C13_percent_history info full (memTotal ls0) ops (renderMeminfo ls0) ⟨none⟩
+    (C13_meminfo_total ls0 h0) hb (Or.inl rfl)
+  refine ⟨h1, ?_⟩
+  rw [h1]
+  exact runCurrent_fixed cfg pcfg info full (memTotal ls0) ops (renderMeminfo ls0)
+    (C13_meminfo_total ls0 h0) hb
+
+/-- CHARACTERISATION of the cache, beyond the property's quantifier (the property quantifies over
+    statm / smaps contents, not over a `MemTotal` that changes between calls) and NOT a defect:
+    the reading "every answer is relative to the total the kernel reports AT THE TIME OF THE
+    CALL" is not what the code does once `MemTotal` changes — the cache is by design ("use cached
+    value if available"); `C13_percent_last_read` is the statement that holds. -/
 def C13_percent_current_total_Full : Prop :=
   ∀ (info full : Res (List Nat)) (ops : List POp) (mi : Bytes),
     runP cfg pcfg info full ops mi ⟨none⟩ = runCurrent cfg pcfg info full ops mi
@@ -385,7 +419,7 @@ def C13_percent_current_total_Full : Prop :=
 def mi1 : Bytes := renderMeminfo [⟨bMemTotal, 4, true⟩, ⟨bMemFree, 1, true⟩]
 def mi2 : Bytes := renderMeminfo [⟨bMemTotal, 8, true⟩, ⟨bMemFree, 1, true⟩]
 
-/-- **Stale total.** `memory_percent()`, then the machine's memory doubles (4 kB → 8 kB), then
+/-- Documented behaviour of the cache (not a defect, see above): `memory_percent()`, then the machine's memory doubles (4 kB → 8 kB), then
     `memory_percent()` again: the code answers 100 % twice, the current total gives 100 % then 50 %. -/
 theorem C13_percent_stale_total_counterexample : ¬ C13_percent_current_total_Full := by
   intro h
